@@ -123,6 +123,16 @@ MUTATORS = {
     "C18": [
         ("expm ignores kind", r"quimb/evo\.py$", r"^(\s+)self\._update_method = self\._update_to_expm_dop\s*$", r"\1self._update_method = self._update_to_expm_ket"),
         ("callback before state", r"quimb/evo\.py$", r"^(\s+)self\._t = t\s*$", None),
+        ("integrator starts at 0", r"quimb/evo\.py$", r"^(\s+)self\._p0\.toarray\(\)\.reshape\(-1\), self\.t0\s*$", r"\1self._p0.toarray().reshape(-1), 0.0"),
+        ("ket key gets dop equation", r"quimb/evo\.py$", r"^(\s+)\(0, 1, 0, 1\): schrodinger_eq_ket_timedep,\s*$", r"\1(0, 1, 0, 1): schrodinger_eq_dop_timedep,"),
+        ("timedep key gets static equation", r"quimb/evo\.py$", r"^(\s+)\(1, 0, 0, 1\): schrodinger_eq_dop_timedep,\s*$", r"\1(1, 0, 0, 1): schrodinger_eq_dop,"),
+        ("missing combination", r"quimb/evo\.py$", r"^(\s+)\(1, 1, 0, 1\): schrodinger_eq_dop_timedep,\s*$", None),
+        ("rhs sign", r"quimb/evo\.py$", r"^(\s+)return -1\.0j \* dot\(ham\(t\), y\)\s*$", r"\1return 1.0j * dot(ham(t), y)"),
+        ("hamiltonian at fixed time", r"quimb/evo\.py$", r"^(\s+)hrho = dot\(ham\(t\), y\.reshape\(d, d\)\)\s*$", r"\1hrho = dot(ham(0), y.reshape(d, d))"),
+        ("anticommutator", r"quimb/evo\.py$", r"^(\s+)return -1\.0j \* \(hrho - hrho\.T\.conj\(\)\)\.reshape\(-1\)\s*$", r"\1return -1.0j * (hrho + hrho.T.conj()).reshape(-1)"),
+        ("solved from current time", r"quimb/evo\.py$", r"^(\s+)lt = explt\(evals, t - self\.t0\)\s*$", r"\1lt = explt(evals, t - self.t)"),
+        ("kind flag swapped", r"quimb/evo\.py$", r"^(\s+)evo_eq = _calc_evo_eq\(self\._isdop, issparse\(H0\), False, self\._timedep\)\s*$", r"\1evo_eq = _calc_evo_eq(issparse(H0), self._isdop, False, self._timedep)"),
+        ("accessors disagree", r"quimb/evo\.py$", r"^(\s+)return self\._stepper\.t if self\._method == \"integrate\" else self\._t\s*$", r'\1return self._stepper.t if hasattr(self, "_stepper") else self._t'),
     ],
     "C19": [
         ("wrong kernel", r"quimb/operator/configcore\.py$", r"^(\s+)return rank_to_flatconfig_u1_pascal\(r, n, k, pt\)\s*$", r"\1return rank_to_flatconfig_z2(r, n, k)"),
